@@ -133,6 +133,9 @@ def run(ctx):
     for n in (4, 5, 6, 7, 9):
         P, F = strip(n)
         shapes.append(("strip", P, F))
+    # the enumerated complex with the placement on which a cotangent weight of an interior edge is exactly zero (the listed open finding):
+    # pinned, so that every tier exercises it whatever the sample drawn above
+    shapes.append(("E-pinned", [[4, 2, 0], [3, 2, 0], [0, 3, 0], [2, 2, 0], [3, 3, 0], [2, 0, 0]], [[0, 1, 4], [0, 4, 5], [0, 5, 1], [1, 2, 4], [2, 3, 4]]))
     tor = c09._grid_surface(3, 3, 1, 1, True)
     shapes.append(("closed-cube", [[0, 0, 0], [2, 0, 0], [2, 2, 0], [0, 2, 0], [0, 0, 2], [2, 0, 2], [2, 2, 2], [0, 2, 2]],
                    [[0, 2, 1], [0, 3, 2], [0, 1, 5], [0, 5, 4], [1, 2, 6], [1, 6, 5], [2, 3, 7], [2, 7, 6], [3, 0, 4], [3, 4, 7], [4, 5, 6], [4, 6, 7]]))
